@@ -89,7 +89,7 @@ let classify_run (args : sx) (real : string) (_model : string) : string =
          | Some m ->
             let r = bdd_raw rx in
             let shape = if robddb r then "" else "shape " in
-            (match find_diff r m with
+            (match find_diff_any r m with
              | Some w -> shape ^ "sem " ^ show_alist w
              | None -> if shape = "" then "holds" else "shape")
          | None -> "model-diverges"))
@@ -221,7 +221,7 @@ let classify_eval (args : sx) (real : string) (model : string) : string =
     | `Ok (r, rv, rf, rn), `Ok (m, mv, mf, mn) ->
         let parts = ref [] in
         if not (robddb r) then parts := "shape" :: !parts;
-        (match find_diff r m with Some w -> parts := ("sem " ^ show_alist w) :: !parts | None -> ());
+        (match find_diff_any r m with Some w -> parts := ("sem " ^ show_alist w) :: !parts | None -> ());
         if rv <> mv || rn <> mn then parts := "vars" :: !parts;
         if rf <> mf then parts := "free" :: !parts;
         if not (List.for_all (fun v -> List.mem v rf) (support r)) then parts := "leak" :: !parts;
